@@ -11,9 +11,9 @@ class RankingEnumeration(NativeCheck):
     property_ids = ("C01",)
     source = "native/bounded/c01_ranking.cpp"
     title = "every bounded wiring program is ranked producers-first, each node once, cycles rejected; evaluation follows the rank"
-    bound_text = ("bounded: wiring programs of N statements over {unary, binary, ternary, two-element-list} nodes with inputs chosen "
+    bound_text = ("bounded: wiring programs of N statements over {unary, binary, ternary, two-element-list, binary with a passive(...) second input} nodes with inputs chosen "
                   "among all earlier statements (repeated producers, two producers in one list input) and every set of at most two "
-                  "explicit rank dependencies on later statements; quick: N <= 3 exhaustive (24 340 programs) plus 4 000 random "
+                  "explicit rank dependencies on later statements; quick: N <= 3 exhaustive (44 115 programs) plus 4 000 random "
                   "programs with N = 5; thorough: N = 4 exhaustive plus 60 000 random programs with N = 5")
     functions = ("graph_wiring.cpp:build_ranked_graph", "graph_wiring.cpp:emit_edges", "graph_wiring.cpp:collect_producers",
                  "Wiring::finish", "Wiring::add_rank_dependency", "graph.cpp:evaluate_impl<Root>")
